@@ -724,6 +724,13 @@ func vfBuildFrames(ex vfExchange) ([]vfWireFrame, map[int]uint32) {
 // vfBeforeClose, when set, runs after the last frame of an exchange and before the connection is closed.
 var vfBeforeClose func()
 
+// vfConnFactory, when set, makes the traced connection for a conversation (e.g. through TracingHTTP2Listener) and
+// says which collector its traces go to. vfAtPause runs at the end of a pause, before the frame goes out.
+var (
+	vfConnFactory func(inner *vfScriptConn, server bool) (net.Conn, *vfCollector)
+	vfAtPause     func(desc string)
+)
+
 // vfPauseBeforeFrame, when set, says how long the conversation pauses before the frame with the given description
 // ("headers(s1,dir0,..." etc.) goes over the wire.
 var vfPauseBeforeFrame func(desc string) time.Duration
@@ -733,6 +740,9 @@ func vfRunExchange(ex vfExchange, cuts [2][]int) ([]Trace, error) {
 	coll := &vfCollector{}
 	inner := &vfScriptConn{}
 	conn := TracingHTTP2Conn(inner, ex.Server, coll)
+	if vfConnFactory != nil {
+		conn, coll = vfConnFactory(inner, ex.Server)
+	}
 	var pending [2][]byte
 	var offset [2]int
 	sortedCuts := [2][]int{append([]int{}, cuts[0]...), append([]int{}, cuts[1]...)}
@@ -788,6 +798,7 @@ func vfRunExchange(ex vfExchange, cuts [2][]int) ([]Trace, error) {
 		dir   int
 		bytes []byte
 		pause time.Duration
+		desc  string
 	}
 	runs := []run{{dir: 0, bytes: append([]byte{}, clientPreface...)}}
 	for _, f := range frames {
@@ -796,7 +807,7 @@ func vfRunExchange(ex vfExchange, cuts [2][]int) ([]Trace, error) {
 			pause = vfPauseBeforeFrame(f.Desc)
 		}
 		if f.Dir != runs[len(runs)-1].dir || pause > 0 {
-			runs = append(runs, run{dir: f.Dir, pause: pause})
+			runs = append(runs, run{dir: f.Dir, pause: pause, desc: f.Desc})
 		}
 		runs[len(runs)-1].bytes = append(runs[len(runs)-1].bytes, f.Bytes...)
 	}
@@ -805,6 +816,9 @@ func vfRunExchange(ex vfExchange, cuts [2][]int) ([]Trace, error) {
 		r := runs[i]
 		if r.pause > 0 {
 			time.Sleep(r.pause)
+			if vfAtPause != nil {
+				vfAtPause(r.desc)
+			}
 		}
 		pending[r.dir] = append(pending[r.dir], r.bytes...)
 		if ex.EagerReply && r.dir != readDir && i+1 < len(runs) && runs[i+1].pause == 0 && runs[i+1].dir == readDir {
@@ -1310,4 +1324,107 @@ func FuzzVerifC15Conn(f *testing.F) {
 			t.Fatal(err)
 		}
 	})
+}
+
+// ---- several connections of one traced listener ----
+
+type vfFakeListener struct{ conns chan net.Conn }
+
+func (l *vfFakeListener) Accept() (net.Conn, error) {
+	c, ok := <-l.conns
+	if !ok {
+		return nil, net.ErrClosed
+	}
+	return c, nil
+}
+func (l *vfFakeListener) Close() error   { return nil }
+func (l *vfFakeListener) Addr() net.Addr { return &net.TCPAddr{IP: net.IPv4(127, 0, 0, 1), Port: 1} }
+
+// TestVerifC15Listener: two connections accepted from one TracingHTTP2Listener. On the first a named stream is refused
+// and the client retries it on the same connection; in between, a second connection carries another call and is closed
+// (or hits the end of its input). The refused call still yields exactly one trace, that of the retry; the other
+// connection's call yields its own.
+func TestVerifC15Listener(t *testing.T) {
+	en := verifkit.NewEnum(t, "C15Listener")
+	type row struct {
+		OtherPeerCloses bool `json:"otherConnectionEndsByPeer"`
+		OtherStreams    int  `json:"otherConnectionStreams"`
+	}
+	mk := func(name, attempt int, refused bool) vfStreamSpec {
+		sp := vfStreamSpec{Named: true, Name: name, Attempt: attempt, ReqCT: "application/grpc", RespCT: "application/grpc",
+			ReqMsgs: []vfMsg{{Payload: []byte("ping")}}, RespMsgs: []vfMsg{{Payload: []byte("pong")}}, Trailers: true, Order: []bool{true, false, true, false}}
+		if refused {
+			sp.Fault, sp.FaultAt, sp.RSTCode = "refused", 1, 7
+		}
+		return sp
+	}
+	for _, peerCloses := range []bool{false, true} {
+		for _, others := range []int{1, 2} {
+			r := row{peerCloses, others}
+			shared := &vfCollector{}
+			fake := &vfFakeListener{conns: make(chan net.Conn, 4)}
+			tl := TracingHTTP2Listener(fake, shared)
+			vfConnFactory = func(inner *vfScriptConn, _ bool) (net.Conn, *vfCollector) {
+				fake.conns <- inner
+				c, err := tl.Accept()
+				if err != nil {
+					panic(err)
+				}
+				return c, shared
+			}
+			var otherErr error
+			vfPauseBeforeFrame = func(desc string) time.Duration {
+				if strings.HasPrefix(desc, "headers(s1,dir0") {
+					return time.Millisecond
+				}
+				return 0
+			}
+			vfAtPause = func(string) {
+				// the other connection, from accept to close, while the refused call waits for its retry
+				savedPause, savedAt := vfPauseBeforeFrame, vfAtPause
+				vfPauseBeforeFrame, vfAtPause = nil, nil
+				defer func() { vfPauseBeforeFrame, vfAtPause = savedPause, savedAt }()
+				other := vfExchange{Server: true, GoAwayAt: -1, Schedule: []int{0}, PeerCloses: peerCloses}
+				for i := 0; i < others; i++ {
+					other.Streams = append(other.Streams, mk(10+i, 1, false))
+				}
+				_, otherErr = vfRunExchange(other, [2][]int{})
+			}
+			first := vfExchange{Server: true, GoAwayAt: -1, Schedule: []int{0}, Streams: []vfStreamSpec{mk(0, 1, true), mk(0, 2, false)}}
+			_, err := vfRunExchange(first, [2][]int{})
+			vfConnFactory, vfPauseBeforeFrame, vfAtPause = nil, nil, nil
+			var viol error
+			switch {
+			case err != nil:
+				viol = err
+			case otherErr != nil:
+				viol = otherErr
+			default:
+				shared.mu.Lock()
+				byName := map[string][]Trace{}
+				for _, tr := range shared.traces {
+					byName[tr.TestName] = append(byName[tr.TestName], tr)
+				}
+				shared.mu.Unlock()
+				retried := byName[vfTestName(mk(0, 1, false))]
+				switch {
+				case len(retried) != 1:
+					viol = verifkit.Violf("h2-trace-count", "%d traces completed for the call that was refused and retried (another connection of the same listener ended in between), want exactly 1", len(retried))
+				case retried[0].Request == nil || retried[0].Request.Header.Get("X-Attempt") != "2":
+					viol = verifkit.Violf("h2-wrong-stream", "the trace of the refused and retried call is not that of the retry")
+				}
+				for i := 0; i < others && viol == nil; i++ {
+					if n := len(byName[vfTestName(mk(10+i, 1, false))]); n != 1 {
+						viol = verifkit.Violf("h2-trace-count", "%d traces for call %d of the other connection, want 1", n, i)
+					}
+				}
+			}
+			en.Rec.Observe(r, []string{fmt.Sprintf("other-ends-by-peer:%v", peerCloses), fmt.Sprintf("other-streams:%d", others)}, true)
+			if viol != nil && en.Fail(r, viol) {
+				en.Done(true)
+				return
+			}
+		}
+	}
+	en.Done(true)
 }
